@@ -38,7 +38,9 @@ type c14Case struct {
 	Proto   string   `json:"proto"`
 	Conns   int      `json:"conns"`   // simple: connections; nats/http: concurrent senders
 	Workers int      `json:"workers"` // nats
-	Reqs    []c14Req `json:"reqs"`
+	// Chunk > 0 (simple server): request frames reach the socket in pieces of that many bytes
+	Chunk int      `json:"chunk,omitempty"`
+	Reqs  []c14Req `json:"reqs"`
 }
 
 // limit413: a well-formed call whose reply exceeds the payload limit the client asked for
@@ -54,6 +56,9 @@ func genC14(t *rapid.T) c14Case {
 	n := rapid.IntRange(1, 30).Draw(t, "n")
 	for i := 0; i < n; i++ {
 		c.Reqs = append(c.Reqs, c14Req{Kind: rapid.SampledFrom(c14Kinds).Draw(t, "kind"), Conn: rapid.IntRange(0, c.Conns-1).Draw(t, "conn")})
+	}
+	if c.Server == "simple" && rapid.IntRange(0, 2).Draw(t, "chunk?") == 0 {
+		c.Chunk = rapid.SampledFrom([]int{1, 3, 7, 16, 50, 200}).Draw(t, "chunk")
 	}
 	if c.Server == "simple" && rapid.IntRange(0, 2).Draw(t, "gone?") == 0 {
 		// the client hangs up while its handler is still running: the reply cannot be written
@@ -86,6 +91,9 @@ func classifyC14(c c14Case) ev.Class {
 	}
 	for k := range kinds {
 		labels = append(labels, "kind="+k)
+	}
+	if c.Chunk > 0 {
+		labels = append(labels, "request-frames-arrive-in-pieces")
 	}
 	for _, r := range c.Reqs {
 		if r.Kind == "big" {
@@ -368,8 +376,21 @@ func execC14Inner(c c14Case) *ev.Failure {
 				}
 				for _, it := range byConn[cn] {
 					frame, opid := c14Frame(c.Proto, it.kind, it.id)
-					if _, err := conn.Write(frame); err != nil {
-						fails[cn] = ev.Failf("conn-broken", "connection %d: write of request %d (%s) failed: %v", cn, it.id, it.kind, err)
+					var werr error
+					if c.Chunk > 0 {
+						for off := 0; off < len(frame) && werr == nil; off += c.Chunk {
+							end := off + c.Chunk
+							if end > len(frame) {
+								end = len(frame)
+							}
+							_, werr = conn.Write(frame[off:end])
+							time.Sleep(50 * time.Microsecond)
+						}
+					} else {
+						_, werr = conn.Write(frame)
+					}
+					if werr != nil {
+						fails[cn] = ev.Failf("conn-broken", "connection %d: write of request %d (%s) failed: %v", cn, it.id, it.kind, werr)
 						return
 					}
 					if it.kind == "oneway" {
